@@ -322,3 +322,14 @@ def rules(chk: Check) -> None:
     from .shared import per_object_state
     chk.stage(per_object_state, chk, "R05.6", ("Hydrodynamics", "HydrodynamicsTemplateModel", "Thermodynamics", "FreeEnergy", "InterpolatableFunction"))
     chk.stage(guarded_brackets, chk, "R05.6", ["hydrodynamics:Hydrodynamics.findMatching", "hydrodynamics:Hydrodynamics.findvwLTE"], floor=2)
+    # R05.7: tiny offsets of bracket ends point into the bracket (the end never lands just outside the admissible interval, where the
+    # bracketed function jumps); results of root finders stored in locals are read (a refined bracket end is not dropped)
+    from .shared import bracket_offsets_inward, solver_results_consumed
+    chk.stage(bracket_offsets_inward, chk, "R05.7", ("hydrodynamics", "hydrodynamicsTemplateModel"), 4)
+    chk.stage(solver_results_consumed, chk, "R05.7", ("hydrodynamics", "hydrodynamicsTemplateModel"), 25)
+    # R05.8: initial guesses / brackets of the matching carry no hard-wired absolute scale (a bare number where a temperature is expected makes
+    # the LTE velocity depend on the units of T: shared with C07 R07.4, hydrodynamics modules only)
+    from ..core import Remap
+    from . import c07
+    chk.stage(c07.rules, Remap(chk, {"R07.4": "R05.8"}, only=lambda r, k, w: "hydrodynamics" in str(w)))
+    chk.floor("R05.8", 3)
